@@ -78,6 +78,9 @@ def run(ck):
     n = decoders.check_rejections(ck, P, "ATOM/rejection")
     ck.floor("ATOM/rejection", n, 40)
     decoders.check_table_fields(ck, P, "ATOM/header-fields")
+    # the decoder's decisions are those of the reference
+    from .. import condparity as _cp
+    ck.floor("SIB/ref-conditions", _cp.check(ck, P, "SIB/ref-conditions", only={"inflate.c:inflate", "inffast_tpl.h:INFLATE_FAST", "inftrees.c:zng_inflate_table"}), 60)
     inflate_table_rules(ck, P)
     # a valid stream may use a 15-bit distance code with 13 extra bits: the fast loops must have (or fetch) 28 bits there
     from . import c02
